@@ -38,7 +38,7 @@ pub struct KCfg {
 
 pub fn gen(rng: &mut Rng, tiny: bool) -> KCfg {
     let same = rng.chance(1, 2);
-    let mk = |rng: &mut Rng, name: &str| StoreCfg { policy: if rng.chance(2, 3) { POL_BLOCK } else { rng.range(1, 2) as u8 }, cap: *rng.pick(&[1usize, 2, 5, 16]), n_red: rng.range(1, 3) as u32, n_mw: rng.below(2) as u32, name: name.to_string() };
+    let mk = |rng: &mut Rng, name: &str| StoreCfg { policy: if rng.chance(2, 3) { POL_BLOCK } else { rng.range(1, 2) as u8 }, cap: *rng.pick(&[1usize, 2, 5, 16]), n_red: rng.range(1, 3) as u32, n_mw: rng.below(2) as u32, name: name.to_string(), ctor: 0 };
     let a = mk(rng, "twin");
     let other_name = if rng.chance(1, 2) { "twin" } else { "other" };
     let b = if same { a.clone() } else { mk(rng, other_name) };
